@@ -20,6 +20,8 @@ CHECKS = {
          "CTX family is a known finding", "TLA+ trace validation of incr/rebuild/reload events"),
  "C03": (MC, "fault enumeration through the model: TLC enumerates worlds in which every specifier answers with every response kind (module, missing, loader error, external, redirect chains 0..14 and cycles, redirect limit 0..12); every terminal state is replayed and entries, referrers, pending slots and panics compared; seeded registry worlds with faulted metadata / manifests / content loads are built with full instrumentation and every build validated by TLC (failed load => error entry of that specifier, nothing pending, entries only for requested specifiers, referrer present)", "4.3, 7 C03",
          "fault placements in registry worlds are sampled (seeded), exhaustive for the URL profiles; decode/parse errors carry no referrer by construction", "TLC fault enumeration replayed + TLA+ trace validation of faulted registry builds"),
+ "C04": (MC, "design level: TLC explores every interleaving of load completions of the small-step builder model (MC_Steps) and checks that the terminal graph, including error referrers, equals the in-order run, plus deadlock freedom and termination under fairness; implementation level: every TLC-generated schedule is replayed through gated loader futures against the real builder (graph compared with the model), and registry worlds are run under reverse / in-order / random schedules and repeated with fresh hasher state; a trace spec checks the terminal observation (serialised graph, error ranges, package table, lockfile) is unique per world", "4.3, 7 C04",
+         "registry-world schedules are sampled; URL-world schedules are exhaustive for the bounded instance", "TLC schedule enumeration replayed through gated loads + trace validation of observation uniqueness"),
  "C05": (MC, "every loader call, lockfile read and write of seeded registry + remote worlds (lockfile absent / matching / wrong, tampered bytes and manifests, stale caches, redirects, cache-only probes) is a trace event; TLC checks per call that the known checksum is presented, and at the end that rejected content is not admitted, the retry discipline, rejected checksummed redirects and exact, non-overwriting lockfile writes", "4.6, 7 C05",
          "SHA-256 values are computed by the harness and compared as tokens; F9 is a known finding", "TLA+ trace validation of loader/locker events (T_Jsr)"),
  "C06": (MC, "function level: TLC enumerates the whole bounded domain of resolve_version (registries x requirements x already-selected x cached x cutoff), proves tiers-as-coded == property statement at design level and every combination is replayed into the real function; graph level: every on_resolve event of registry-world builds is validated in order against the statement with the selections made so far", "4.6, 7 C06",
